@@ -149,3 +149,580 @@ theorem delOld_cnt (l : List (Nat × Int)) : ∀ (w : World), Alive w →
       simp [h1, List.count_cons, h2]
 
 end Storrent.Reader
+
+namespace Storrent.Reader
+open Storrent Storrent.Requested
+
+/-! ### `Torrent.Request` by cases; no Go fault inside a valid geometry -/
+
+/-- the geometry `MetadataComplete` establishes: a positive piece size, a piece table that
+    covers the torrent (`len(pieces) = ⌈total/ps⌉`) and at least as long as the hash table -/
+def Geom (w : World) : Prop :=
+  0 < w.ps ∧ w.numHashes ≤ w.data.length ∧ w.total ≤ w.data.length * w.ps
+
+theorem Geom.same {w w' : World} (h : SameStore w w') (g : Geom w) : Geom w' := by
+  obtain ⟨h1, h2, h3, h4, _, _⟩ := h
+  unfold Geom; rw [h1, h2, h3, h4]; exact g
+
+theorem complete?_some (w : World) (i : Nat) (hi : i < w.data.length) :
+    ∃ b, w.complete? i = some b := by
+  unfold World.complete?
+  rw [List.getElem?_eq_getElem hi]
+  exact ⟨_, rfl⟩
+
+/-- the three things `Torrent.Request` can do -/
+inductive TRCase (w : World) (i : Nat) (p : Int) (rq want : Bool) (w' : World) (res : TRes) : Prop
+  /-- nothing reaches the loop: metadata incomplete, index beyond the hash table, piece
+      already complete, torrent dead -/
+  | nothing (hw : w' = w) (hd : res.d = false) (hc : res.ch = none)
+  /-- the loop ran `Requested.Add` -/
+  | added (hrq : rq = true) (hi : i < w.numHashes) (hinc : w.complete? i = some false)
+      (hw : w' = { w with rs := (add w.rs i p want).1 }) (hd : res.d = true) (he : res.err = none)
+      (hc : res.ch = if want then (add w.rs i p want).2.1 else none)
+  /-- the loop ran `Requested.Del` -/
+  | removed (hrq : rq = false) (hi : i < w.numHashes)
+      (hw : w' = { w with rs := (del w.rs i p).1 }) (hd : res.d = true) (he : res.err = none)
+      (hc : res.ch = none)
+
+theorem torRequest_cases (w : World) (i : Nat) (p : Int) (rq want : Bool)
+    (hg : w.numHashes ≤ w.data.length) :
+    ∃ res, (torRequest w i p rq want).2 = some res ∧
+      TRCase w i p rq want (torRequest w i p rq want).1 res := by
+  unfold torRequest
+  by_cases h1 : (!w.infoComplete) = true
+  · rw [if_pos h1]; exact ⟨_, rfl, .nothing rfl rfl rfl⟩
+  · rw [if_neg h1]
+    by_cases h2 : i ≥ w.numHashes
+    · rw [if_pos h2]; exact ⟨_, rfl, .nothing rfl rfl rfl⟩
+    · rw [if_neg h2]
+      have hi : i < w.numHashes := by omega
+      obtain ⟨b, hb⟩ := complete?_some w i (by omega)
+      have h3 : ¬ (rq = true ∧ w.complete? i = none) := by rw [hb]; simp
+      rw [if_neg h3]
+      by_cases h4 : rq = true ∧ w.complete? i = some true
+      · rw [if_pos h4]; exact ⟨_, rfl, .nothing rfl rfl rfl⟩
+      · rw [if_neg h4]
+        by_cases h5 : w.dead = true
+        · rw [if_pos h5]; exact ⟨_, rfl, .nothing rfl rfl rfl⟩
+        · rw [if_neg h5]
+          have hgt : ¬ i > w.numHashes := by omega
+          unfold requestPiece
+          rw [if_neg hgt]
+          cases rq with
+          | true =>
+            have hbf : b = false := by
+              cases b with
+              | false => rfl
+              | true => exact absurd ⟨rfl, hb⟩ h4
+            subst hbf
+            simp only [hb, if_true]
+            refine ⟨_, rfl, .added rfl hi hb ?_ rfl rfl ?_⟩ <;> simp
+          | false =>
+            simp only [Bool.false_eq_true, if_false]
+            exact ⟨_, rfl, .removed rfl hi rfl rfl rfl (by simp)⟩
+
+theorem torRequest_ne_none (w : World) (i : Nat) (p : Int) (rq want : Bool)
+    (hg : w.numHashes ≤ w.data.length) : (torRequest w i p rq want).2 ≠ none := by
+  obtain ⟨res, h, _⟩ := torRequest_cases w i p rq want hg
+  rw [h]; simp
+
+end Storrent.Reader
+
+namespace Storrent.Reader
+open Storrent Storrent.Requested
+
+theorem torRequest_eq (w : World) (i : Nat) (p : Int) (rq want : Bool)
+    (hg : w.numHashes ≤ w.data.length) :
+    ∃ w' res, torRequest w i p rq want = (w', some res) ∧ TRCase w i p rq want w' res ∧
+      SameStore w w' := by
+  obtain ⟨res, h, hc⟩ := torRequest_cases w i p rq want hg
+  refine ⟨(torRequest w i p rq want).1, res, ?_, hc, torRequest_same w i p rq want⟩
+  rw [← h]
+
+theorem hg_same {w w' : World} (h : SameStore w w') (hg : w.numHashes ≤ w.data.length) :
+    w'.numHashes ≤ w'.data.length := by
+  obtain ⟨_, _, h3, h4, _, _⟩ := h; rw [h3, h4]; exact hg
+
+theorem addRest_nopanic (l : List (Nat × Int)) : ∀ (w : World) (acc : List (Nat × Int)),
+    w.numHashes ≤ w.data.length → (addRest w l acc).2.2 = false := by
+  induction l with
+  | nil => intro w acc _; rfl
+  | cons c r ih =>
+    intro w acc hg
+    obtain ⟨w', res, he, _, hs⟩ := torRequest_eq w c.1 c.2 true false hg
+    unfold addRest
+    rw [he]
+    exact ih w' _ (hg_same hs hg)
+
+theorem delOld_nopanic (l : List (Nat × Int)) : ∀ (w : World),
+    w.numHashes ≤ w.data.length → (delOld w l).2 = false := by
+  induction l with
+  | nil => intro w _; rfl
+  | cons c r ih =>
+    intro w hg
+    obtain ⟨w', res, he, _, hs⟩ := torRequest_eq w c.1 c.2 false false hg
+    unfold delOld
+    rw [he]
+    exact ih w' (hg_same hs hg)
+
+theorem chunks_ne_none (cfg : Cfg) (ps : Nat) (pos limit : Int) (hps : 0 < ps) :
+    chunks cfg ps pos limit ≠ none := by
+  unfold chunks
+  split
+  · simp
+  · have : ¬ ps = 0 := by omega
+    rw [if_neg this]
+    simp only []
+    split <;> simp
+
+theorem requestSlow_nopanic (f : Bool) (cfg : Cfg) (w : World) (r : Rd) (pos limit : Int)
+    (g : Geom w) : (requestSlow f cfg w r pos limit).panic = false := by
+  obtain ⟨hps, hg, _⟩ := g
+  unfold requestSlow
+  cases hc : chunks cfg w.ps pos limit with
+  | none => exact absurd hc (chunks_ne_none cfg w.ps pos limit hps)
+  | some l =>
+    cases l with
+    | nil => simp only []; exact delOld_nopanic _ w hg
+    | cons c rest =>
+      simp only []
+      obtain ⟨w0, res, he, _, hs⟩ := torRequest_eq w c.1 c.2 true true hg
+      rw [he]
+      simp only []
+      have hg0 := hg_same hs hg
+      by_cases herr : res.err.isSome = true
+      · simp only [herr, if_true]
+        exact delOld_nopanic _ w0 hg0
+      · simp only [herr]
+        have hp := addRest_nopanic rest w0 (if res.d = true then [c] else []) hg0
+        simp only [Bool.false_eq_true, if_false, hp]
+        exact delOld_nopanic _ _ (hg_same (addRest_same w0 rest _) hg0)
+
+theorem request_nopanic (cfg : Cfg) (w : World) (r : Rd) (pos limit : Int) (g : Geom w) :
+    (request cfg w r pos limit).panic = false := by
+  unfold request
+  have hps : ¬ w.ps = 0 := by have := g.1; omega
+  by_cases h1 : r.requestedIndex ≥ 0 ∧ pos ≥ 0
+  · rw [if_pos h1, if_neg hps]
+    by_cases h2 : r.requestedIndex = (cacheIndex w.ps pos : Int)
+    · rw [if_pos h2]
+    · rw [if_neg h2]; exact requestSlow_nopanic false cfg w r pos limit g
+  · rw [if_neg h1]; exact requestSlow_nopanic false cfg w r pos limit g
+
+theorem readAt_nopanic (w : World) (g : Geom w) (m a : Nat) : readAt w m (a : Int) ≠ .panic := by
+  obtain ⟨hps, _, htot⟩ := g
+  unfold readAt
+  split
+  · simp
+  · rename_i hlt
+    have hps' : ¬ w.ps = 0 := by omega
+    rw [if_neg hps']
+    have hdiv : Int.tdiv (a : Int) (w.ps : Int) = ((a / w.ps : Nat) : Int) := by simp [Int.tdiv]
+    have hmod : Int.tmod (a : Int) (w.ps : Int) = ((a % w.ps : Nat) : Int) := by simp [Int.tmod]
+    simp only [hdiv, hmod]
+    have h0 : ¬ ((a / w.ps : Nat) : Int) < 0 := by
+      have := Int.natCast_nonneg (a / w.ps); omega
+    rw [if_neg h0]
+    simp only [Int.toNat_natCast]
+    have halt : a < w.total := by omega
+    have hidx : a / w.ps < w.data.length := by
+      apply (Nat.div_lt_iff_lt_mul hps).2
+      omega
+    rw [List.getElem?_eq_getElem hidx]
+    cases w.data[a / w.ps] with
+    | none => simp
+    | some d =>
+      simp only []
+      split
+      · simp
+      · have : ¬ ((a % w.ps : Nat) : Int) < 0 := by
+          have := Int.natCast_nonneg (a % w.ps); omega
+        rw [if_neg this]; simp
+
+end Storrent.Reader
+
+namespace Storrent.Reader
+open Storrent Storrent.Requested
+
+/-! ### what the reader holds is registered (the registration half of reader balance) -/
+
+/-- every registration listed in `r.requested` is present in `Torrent.requested` -/
+def Holds (w : World) (r : Rd) : Prop :=
+  ∀ j q, r.requested.count (j, q) ≤ cnt w.rs j q
+
+/-- the cached request: when `requestedIndex ≥ 0` and a channel is cached, the reader holds
+    priority 1 on that piece -/
+def RInv (r : Rd) : Prop :=
+  r.requestedIndex ≥ 0 → ∀ c, r.ch = some c → (r.requestedIndex.toNat, (1 : Int)) ∈ r.requested
+
+/-- would `Torrent.Request(i, _, true, _)` reach `Requested.Add`? (depends on the store only) -/
+def regB (w : World) (i : Nat) : Bool :=
+  w.infoComplete && !w.dead && decide (i < w.numHashes) && (w.complete? i == some false)
+
+theorem regB_same {w w' : World} (h : SameStore w w') (i : Nat) : regB w' i = regB w i := by
+  obtain ⟨_, _, h3, h4, h5, h6⟩ := h
+  unfold regB World.complete?; rw [h3, h4, h5, h6]
+
+theorem trcase_add_d {w : World} {i : Nat} {p : Int} {want : Bool} {w' : World} {res : TRes}
+    (h : TRCase w i p true want w' res) :
+    (res.d = true → w' = { w with rs := (add w.rs i p want).1 } ∧ res.err = none ∧
+        res.ch = (if want then (add w.rs i p want).2.1 else none)) ∧
+    (res.d = false → w' = w ∧ res.ch = none) := by
+  cases h with
+  | nothing hw hd hc => exact ⟨by intro h; rw [hd] at h; simp at h, fun _ => ⟨hw, hc⟩⟩
+  | added _ _ _ hw hd he hc => exact ⟨fun _ => ⟨hw, he, hc⟩, by intro h; rw [hd] at h; simp at h⟩
+  | removed hrq => simp at hrq
+
+theorem cnt_trcase_add {w : World} {i : Nat} {p : Int} {want : Bool} {w' : World} {res : TRes}
+    (h : TRCase w i p true want w' res) (hp : p > idlePriority) (j : Nat) (q : Int) :
+    cnt w'.rs j q = cnt w.rs j q + (if res.d then [(i, p)] else []).count (j, q) := by
+  obtain ⟨h1, h2⟩ := trcase_add_d h
+  cases hd : res.d with
+  | true =>
+    obtain ⟨hw, _, _⟩ := h1 hd
+    rw [hw]; simp only []
+    rw [cnt_add]
+    by_cases hjq : j = i ∧ q = p
+    · obtain ⟨a, b⟩ := hjq; subst a b; simp [hp]
+    · have : ¬ ((i, p) = (j, q)) := by
+        intro h; apply hjq; cases h; exact ⟨rfl, rfl⟩
+      have h3 : ¬ (j = i ∧ q = p ∧ p > idlePriority) := fun ⟨a, b, _⟩ => hjq ⟨a, b⟩
+      simp [h3, List.count_cons, this]
+  | false =>
+    obtain ⟨hw, _⟩ := h2 hd
+    rw [hw]; simp
+
+theorem addRest_cnt (l : List (Nat × Int)) : ∀ (w : World) (acc : List (Nat × Int)),
+    w.numHashes ≤ w.data.length → (∀ c ∈ l, c.2 > idlePriority) →
+    ∃ ext, (addRest w l acc).2.1 = acc ++ ext ∧
+      (∀ j q, cnt (addRest w l acc).1.rs j q = cnt w.rs j q + ext.count (j, q)) ∧
+      (∀ c ∈ ext, c ∈ l) := by
+  induction l with
+  | nil => intro w acc _ _; exact ⟨[], by simp [addRest], by simp [addRest], by simp⟩
+  | cons c r ih =>
+    intro w acc hg hp
+    obtain ⟨w', res, he, hcase, hs⟩ := torRequest_eq w c.1 c.2 true false hg
+    have hpc : c.2 > idlePriority := hp c (by simp)
+    obtain ⟨ext, e1, e2, e3⟩ := ih w' (if res.d = true then acc ++ [c] else acc) (hg_same hs hg)
+      (fun x hx => hp x (List.mem_cons_of_mem _ hx))
+    unfold addRest
+    rw [he]
+    simp only []
+    refine ⟨(if res.d then [c] else []) ++ ext, ?_, ?_, ?_⟩
+    · rw [e1]; cases res.d <;> simp
+    · intro j q
+      rw [e2 j q, cnt_trcase_add hcase hpc j q, List.count_append]
+      cases c; simp only []; omega
+    · intro x hx
+      simp only [List.mem_append] at hx
+      rcases hx with hx | hx
+      · cases hd : res.d <;> simp [hd] at hx
+        subst hx; simp
+      · exact List.mem_cons_of_mem _ (e3 x hx)
+
+theorem cnt_trcase_del {w : World} {i : Nat} {p : Int} {w' : World} {res : TRes}
+    (h : TRCase w i p false false w' res) (j : Nat) (q : Int) :
+    cnt w'.rs j q ≤ cnt w.rs j q ∧ cnt w.rs j q ≤ cnt w'.rs j q + [(i, p)].count (j, q) := by
+  cases h with
+  | nothing hw _ _ => rw [hw]; omega
+  | added hrq => simp at hrq
+  | removed _ _ hw _ _ _ =>
+    rw [hw]; simp only []
+    rw [cnt_del]
+    by_cases hjq : j = i ∧ q = p
+    · obtain ⟨a, b⟩ := hjq; subst a b; simp; omega
+    · have : ¬ ((i, p) = (j, q)) := by
+        intro h; apply hjq; cases h; exact ⟨rfl, rfl⟩
+      simp [hjq, List.count_cons, this]
+
+theorem delOld_bounds (l : List (Nat × Int)) : ∀ (w : World), w.numHashes ≤ w.data.length →
+    ∀ j q, cnt (delOld w l).1.rs j q ≤ cnt w.rs j q ∧
+           cnt w.rs j q ≤ cnt (delOld w l).1.rs j q + l.count (j, q) := by
+  induction l with
+  | nil => intro w _ j q; simp [delOld]
+  | cons c r ih =>
+    intro w hg j q
+    obtain ⟨w', res, he, hcase, hs⟩ := torRequest_eq w c.1 c.2 false false hg
+    obtain ⟨a1, a2⟩ := ih w' (hg_same hs hg) j q
+    obtain ⟨b1, b2⟩ := cnt_trcase_del hcase j q
+    unfold delOld
+    rw [he]
+    simp only []
+    have hcc : (c :: r).count (j, q) = r.count (j, q) + [(c.1, c.2)].count (j, q) := by
+      cases c; simp [List.count_cons]
+    rw [hcc]
+    constructor <;> omega
+
+end Storrent.Reader
+
+namespace Storrent.Reader
+open Storrent Storrent.Requested
+
+theorem torRequest_d (w : World) (i : Nat) (p : Int) (want : Bool)
+    (hg : w.numHashes ≤ w.data.length) (res : TRes)
+    (h : (torRequest w i p true want).2 = some res) : res.d = regB w i := by
+  unfold torRequest at h
+  unfold regB
+  by_cases h1 : (!w.infoComplete) = true
+  · rw [if_pos h1] at h; simp at h; subst h; simp at h1; simp [h1]
+  · rw [if_neg h1] at h
+    simp at h1
+    by_cases h2 : i ≥ w.numHashes
+    · rw [if_pos h2] at h; simp at h; subst h
+      have : ¬ i < w.numHashes := by omega
+      simp [this]
+    · rw [if_neg h2] at h
+      have hi : i < w.numHashes := by omega
+      obtain ⟨b, hb⟩ := complete?_some w i (by omega)
+      have h3 : ¬ (true = true ∧ w.complete? i = none) := by rw [hb]; simp
+      rw [if_neg h3] at h
+      cases b with
+      | true =>
+        have h4 : (true = true ∧ w.complete? i = some true) := ⟨rfl, hb⟩
+        rw [if_pos h4] at h; simp at h; subst h; simp [hb]
+      | false =>
+        have h4 : ¬ (true = true ∧ w.complete? i = some true) := by rw [hb]; simp
+        rw [if_neg h4] at h
+        by_cases h5 : w.dead = true
+        · rw [if_pos h5] at h; simp at h; subst h; simp [h5]
+        · rw [if_neg h5] at h
+          have hgt : ¬ i > w.numHashes := by omega
+          unfold requestPiece at h
+          rw [if_neg hgt] at h
+          simp only [hb, if_true] at h
+          simp at h; subst h
+          simp at h5
+          simp [h1, h5, hi, hb]
+
+theorem addRest_filter (l : List (Nat × Int)) : ∀ (w : World) (acc : List (Nat × Int)),
+    w.numHashes ≤ w.data.length →
+    (addRest w l acc).2.1 = acc ++ l.filter (fun c => regB w c.1) := by
+  induction l with
+  | nil => intro w acc _; simp [addRest]
+  | cons c r ih =>
+    intro w acc hg
+    obtain ⟨w', res, he, _, hs⟩ := torRequest_eq w c.1 c.2 true false hg
+    have hd : res.d = regB w c.1 := torRequest_d w c.1 c.2 false hg res (by rw [he])
+    unfold addRest
+    rw [he]
+    simp only []
+    rw [ih w' _ (hg_same hs hg)]
+    have hf : (r.filter fun c => regB w' c.1) = (r.filter fun c => regB w c.1) := by
+      congr 1; funext x; exact regB_same hs x.1
+    rw [hf, List.filter_cons, hd]
+    cases regB w c.1 <;> simp
+
+theorem chunksLoop_spec (fuel : Nat) : ∀ (index i bound : UInt32) (acc : List (Nat × Int)),
+    ∃ ext, chunksLoop fuel index i bound acc = acc ++ ext ∧ ∀ c ∈ ext, c.2 = -1 := by
+  induction fuel with
+  | zero => intro _ _ _ acc; exact ⟨[], by simp [chunksLoop], by simp⟩
+  | succ fuel ih =>
+    intro index i bound acc
+    unfold chunksLoop
+    split
+    · obtain ⟨ext, e1, e2⟩ := ih index (i + 1) bound (acc ++ [((index + i).toNat, -1)])
+      refine ⟨((index + i).toNat, -1) :: ext, by rw [e1]; simp, ?_⟩
+      intro c hc
+      simp at hc
+      rcases hc with hc | hc
+      · rw [hc]
+      · exact e2 c hc
+    · exact ⟨[], by simp, by simp⟩
+
+/-- the list `Reader.chunks` computes: empty outside the window; otherwise it starts with the
+    cursor's piece (as `uint32`) at priority 1, every other entry has priority 0 or -1 -/
+theorem chunks_spec (cfg : Cfg) (ps : Nat) (pos limit : Int) (l : List (Nat × Int))
+    (h : chunks cfg ps pos limit = some l) :
+    (l = [] ∧ (pos < 0 ∨ pos > limit)) ∨
+    (0 ≤ pos ∧ pos ≤ limit ∧
+      ∃ rest, l = ((UInt32.ofNat (pos.toNat / ps)).toNat, 1) :: rest ∧ ∀ c ∈ rest, c.2 = 0 ∨ c.2 = -1) := by
+  unfold chunks at h
+  by_cases h1 : pos < 0 ∨ pos > limit
+  · rw [if_pos h1] at h; simp at h; exact Or.inl ⟨h, h1⟩
+  · rw [if_neg h1] at h
+    right
+    refine ⟨by omega, by omega, ?_⟩
+    by_cases h2 : ps = 0
+    · rw [if_pos h2] at h; simp at h
+    · rw [if_neg h2] at h
+      simp only [] at h
+      split at h
+      · obtain ⟨ext, e1, e2⟩ := chunksLoop_spec _ (UInt32.ofNat (pos.toNat / ps)) 2 _ 
+          ([((UInt32.ofNat (pos.toNat / ps)).toNat, (1 : Int))] ++ [((UInt32.ofNat (pos.toNat / ps) + 1).toNat, (0 : Int))])
+        rw [e1] at h
+        simp at h
+        refine ⟨_, h.symm, ?_⟩
+        intro c hc
+        simp at hc
+        rcases hc with hc | hc
+        · left; rw [hc]
+        · right; exact e2 c hc
+      · obtain ⟨ext, e1, e2⟩ := chunksLoop_spec _ (UInt32.ofNat (pos.toNat / ps)) 1 _ 
+          [((UInt32.ofNat (pos.toNat / ps)).toNat, (1 : Int))]
+        rw [e1] at h
+        simp at h
+        exact ⟨_, h.symm, fun c hc => Or.inr (e2 c hc)⟩
+
+theorem chunks_prio (cfg : Cfg) (ps : Nat) (pos limit : Int) (l : List (Nat × Int))
+    (h : chunks cfg ps pos limit = some l) : ∀ c ∈ l, c.2 > idlePriority := by
+  intro c hc
+  rcases chunks_spec cfg ps pos limit l h with ⟨hl, _⟩ | ⟨_, _, rest, hl, hr⟩
+  · rw [hl] at hc; simp at hc
+  · rw [hl] at hc
+    simp at hc
+    rcases hc with hc | hc
+    · rw [hc]; show (1 : Int) > idlePriority; decide
+    · rcases hr c hc with h0 | h0 <;> rw [h0] <;> decide
+
+end Storrent.Reader
+
+namespace Storrent.Reader
+open Storrent Storrent.Requested
+
+/-- what the slow path of `Reader.request` establishes -/
+structure SlowSpec (cfg : Cfg) (w : World) (pos limit : Int) (out : ReqRes) : Prop where
+  holds : Holds out.w out.r
+  chEq : out.r.ch = out.ch
+  cached : ∀ c, out.ch = some c →
+    out.r.requestedIndex ≥ 0 ∧ (out.r.requestedIndex.toNat, (1 : Int)) ∈ out.r.requested ∧
+    0 ≤ pos ∧ out.r.requestedIndex = ((UInt32.ofNat (pos.toNat / w.ps)).toNat : Int)
+  window : ∀ l, chunks cfg w.ps pos limit = some l → out.err = none →
+    out.r.requested = l.filter (fun c => regB w c.1)
+
+theorem requestSlow_spec (f : Bool) (cfg : Cfg) (w : World) (r : Rd) (pos limit : Int)
+    (g : Geom w) (hh : Holds w r) : SlowSpec cfg w pos limit (requestSlow f cfg w r pos limit) := by
+  obtain ⟨hps, hg, _⟩ := g
+  unfold requestSlow
+  cases hc : chunks cfg w.ps pos limit with
+  | none => exact absurd hc (chunks_ne_none cfg w.ps pos limit hps)
+  | some l =>
+    cases l with
+    | nil =>
+      simp only []
+      exact ⟨by intro j q; simp, rfl, by intro c h; simp at h,
+        by intro l hl _; rw [hc] at hl; simp at hl; subst hl; rfl⟩
+    | cons c rest =>
+      simp only []
+      obtain ⟨w0, res, he, hcase, hs⟩ := torRequest_eq w c.1 c.2 true true hg
+      have hdreg : res.d = regB w c.1 := torRequest_d w c.1 c.2 true hg res (by rw [he])
+      rw [he]
+      simp only []
+      have hg0 := hg_same hs hg
+      have hprio := chunks_prio cfg w.ps pos limit _ hc
+      have hpc : c.2 > idlePriority := hprio c (by simp)
+      obtain ⟨d1, d2⟩ := trcase_add_d hcase
+      by_cases herr : res.err.isSome = true
+      · -- the first request failed: nothing registered, nothing cached
+        have hdf : res.d = false := by
+          cases hd : res.d with
+          | false => rfl
+          | true => have := (d1 hd).2.1; rw [this] at herr; simp at herr
+        have hch : res.ch = none := (d2 hdf).2
+        simp only [herr, if_true, hdf, Bool.false_eq_true, if_false]
+        refine ⟨by intro j q; simp, hch.symm ▸ rfl, by intro c' h; rw [hch] at h; simp at h, ?_⟩
+        intro l _ hnone
+        have hn : res.err = none := hnone
+        rw [hn] at herr; simp at herr
+      · have herr' : res.err = none := by
+          cases hr : res.err with
+          | none => rfl
+          | some e => rw [hr] at herr; simp at herr
+        simp only [herr]
+        have hp := addRest_nopanic rest w0 (if res.d = true then [c] else []) hg0
+        obtain ⟨ext, e1, e2, _⟩ := addRest_cnt rest w0 (if res.d = true then [c] else []) hg0
+          (fun x hx => hprio x (List.mem_cons_of_mem _ hx))
+        have hfil := addRest_filter rest w0 (if res.d = true then [c] else []) hg0
+        have hs1 := addRest_same w0 rest (if res.d = true then [c] else [])
+        have hg1 := hg_same hs1 hg0
+        simp only [Bool.false_eq_true, if_false, hp]
+        refine ⟨?_, rfl, ?_, ?_⟩
+        · intro j q
+          show ((addRest w0 rest (if res.d = true then [c] else [])).2.1).count (j, q) ≤
+            cnt (delOld (addRest w0 rest (if res.d = true then [c] else [])).1 r.requested).1.rs j q
+          obtain ⟨_, b2⟩ := delOld_bounds r.requested _ hg1 j q
+          have c0 := cnt_trcase_add hcase hpc j q
+          have c1 := e2 j q
+          have h0 := hh j q
+          rw [e1, List.count_append]
+          have hc' : (if res.d = true then [(c.1, c.2)] else []) = (if res.d = true then [c] else []) := by
+            cases c; rfl
+          rw [hc'] at c0
+          omega
+        · intro ch hch
+          simp only [] at hch
+          have hdt : res.d = true := by
+            cases hd : res.d with
+            | true => rfl
+            | false => rw [(d2 hd).2] at hch; simp at hch
+          rcases chunks_spec cfg w.ps pos limit _ hc with ⟨hl, _⟩ | ⟨p1, _, rest', hl, _⟩
+          · simp at hl
+          · simp at hl
+            obtain ⟨hce, _⟩ := hl
+            simp only [Bool.and_false, Bool.false_eq_true, if_false]
+            have hc1 : (c.1, (1 : Int)) = c := by rw [hce]
+            have hmem : (c.1, (1 : Int)) ∈ (addRest w0 rest (if res.d = true then [c] else [])).2.1 := by
+              rw [e1, hdt, hc1]; simp
+            refine ⟨Int.natCast_nonneg _, ?_, p1, by rw [hce]; simp⟩
+            rw [Int.toNat_natCast]
+            exact hmem
+        · intro l hl _
+          rw [hc] at hl
+          simp at hl
+          subst hl
+          show (addRest w0 rest (if res.d = true then [c] else [])).2.1 = _
+          rw [hfil, List.filter_cons, hdreg]
+          have hf : (rest.filter fun c => regB w0 c.1) = (rest.filter fun c => regB w c.1) := by
+            congr 1; funext x; exact regB_same hs x.1
+          rw [hf]
+          cases regB w c.1 <;> simp
+
+end Storrent.Reader
+
+namespace Storrent.Reader
+open Storrent Storrent.Requested
+
+/-- for a non-negative position the index of the cache test is the `uint32` the chunk list
+    starts with -/
+theorem cacheIndex_nat (ps a : Nat) : cacheIndex ps (a : Int) = (UInt32.ofNat (a / ps)).toNat := by
+  unfold cacheIndex
+  have hdiv : Int.tdiv (a : Int) (ps : Int) = ((a / ps : Nat) : Int) := by simp [Int.tdiv]
+  rw [hdiv]
+  simp [UInt32.ofInt]
+  have h : ((a : Int) / (ps : Int) % 4294967296) = (((a / ps % 4294967296 : Nat)) : Int) := by
+    omega
+  rw [h, Int.toNat_natCast]
+  omega
+
+/-- what `Reader.request` guarantees on return (cache hit or slow path) -/
+structure ReqSpec (w : World) (pos : Int) (q : ReqRes) : Prop where
+  holds : Holds q.w q.r
+  rinv : RInv q.r
+  chEq : q.r.ch = q.ch
+  cached : ∀ c, q.ch = some c →
+    q.r.requestedIndex ≥ 0 ∧ (q.r.requestedIndex.toNat, (1 : Int)) ∈ q.r.requested ∧
+    0 ≤ pos ∧ q.r.requestedIndex = (cacheIndex w.ps pos : Int)
+
+theorem request_spec (cfg : Cfg) (w : World) (r : Rd) (pos limit : Int) (g : Geom w)
+    (hh : Holds w r) (hr : RInv r) : ReqSpec w pos (request cfg w r pos limit) := by
+  have hps : ¬ w.ps = 0 := by have := g.1; omega
+  have slow : ReqSpec w pos (requestSlow false cfg w r pos limit) := by
+    have sp := requestSlow_spec false cfg w r pos limit g hh
+    refine ⟨sp.holds, ?_, sp.chEq, ?_⟩
+    · intro hge c hc
+      rw [sp.chEq] at hc
+      exact (sp.cached c hc).2.1
+    · intro c hc
+      obtain ⟨a1, a2, a3, a4⟩ := sp.cached c hc
+      refine ⟨a1, a2, a3, ?_⟩
+      obtain ⟨a, ha⟩ := Int.eq_ofNat_of_zero_le a3
+      rw [a4, ha, cacheIndex_nat]; simp
+  unfold request
+  by_cases h1 : r.requestedIndex ≥ 0 ∧ pos ≥ 0
+  · rw [if_pos h1, if_neg hps]
+    by_cases h2 : r.requestedIndex = (cacheIndex w.ps pos : Int)
+    · rw [if_pos h2]
+      exact ⟨hh, hr, rfl, fun c hc => ⟨h1.1, hr h1.1 c hc, h1.2, h2⟩⟩
+    · rw [if_neg h2]; exact slow
+  · rw [if_neg h1]; exact slow
+
+end Storrent.Reader
